@@ -15,4 +15,4 @@ from checks import gov_common
 
 
 def run(ctx):
-    gov_common.run_streams(ctx, "C36", ["gov-admission"], "Poly.Props.C36.admit_iff / removal_effective")
+    gov_common.run_streams(ctx, "C36", ["gov-admission"], "Poly.Props.C36.admits_iff / removal_effective")
